@@ -9,7 +9,7 @@
    (lemmas [quiescence_is_aq], [depth1_is_ad1], [node_is_anode], [root_is_aroot], all proved by
    [reflexivity]), so nothing about chess is ever unfolded, and small abstract trees can be
    used for counterexamples.  *)
-From Coq Require Import Lia Permutation FSets.FMapPositive.
+From Coq Require Import Lia Permutation FSets.FMapPositive Wf_nat.
 From Chess Require Import Model.Search Spec.Negamax Model.RefSearch.
 
 Open Scope Z_scope.
@@ -557,4 +557,465 @@ Section ABProofs.
       + exists r. split; [exact Er|]. unfold d1children in Hr.
         rewrite <- (d1ref_fst QFUEL g real m ms E alpha) in Hr. unfold SpecR. lia.
   Qed.
+  (* ---- the search state: table-less, never stopped ---- *)
+  Definition OKst (st : sstate) : Prop :=
+    s_tableless st = true /\ s_running st = true /\ s_stop_at st = -1 /\ 0 <= s_polls st.
+
+  Lemma poll_ok : forall st, OKst st ->
+    OKst (poll st) /\ s_running (poll st) = true /\ s_tbl (poll st) = tempty.
+  Proof.
+    intros [t k h r p sa sd af tl]. unfold OKst, poll. cbn [s_tableless s_running s_stop_at s_polls s_tbl s_stopped s_after s_killers s_hist].
+    intros [-> [-> [-> Hp]]].
+    destruct (Z.eqb_spec (-1) p) as [E|E]; [lia|].
+    repeat split; lia.
+  Qed.
+
+  Lemma with_killers_ok : forall st k, OKst st -> OKst (with_killers st k).
+  Proof. intros st k H. exact H. Qed.
+  Lemma with_hist_ok : forall st h, OKst st -> OKst (with_hist st h).
+  Proof. intros st h H. exact H. Qed.
+  Lemma with_tbl_ok : forall st t, OKst st -> OKst (with_tbl st t).
+  Proof. intros st t H. exact H. Qed.
+
+  Lemma tfind_empty : forall h, tfind tempty h = None.
+  Proof. intros h. unfold tfind, tempty. apply PositiveMap.gempty. Qed.
+
+  (* ---- the tree condition below a node: separation at the quiescence leaves, and child
+          values of interior nodes not above -MIN (always true for i16 scores) ---- *)
+  Fixpoint ntree (rem : nat) (g : G) (real : Z) : bool :=
+    match rem with
+    | O => qsep QFUEL g real
+    | S O => d1sep g real
+    | S (S _ as rem') =>
+        forallb (fun m => (fst (NR QFUEL rem' (play g m) (real + 1)) <=? - SCORE_MIN)
+                          && ntree rem' (play g m) (real + 1)) (checked g)
+    end.
+
+  Definition nchildren (rem' : nat) (g : G) (real : Z) (ms : list Move) : list Z :=
+    map (fun m => - fst (NR QFUEL rem' (play g m) (real + 1))) ms.
+
+  Lemma nref_leaf : forall n g real, checked g = [] ->
+    NR QFUEL (S (S n)) g real = (anms G safe g MATE_OFFSET_NODE real, false).
+  Proof. intros n g real E. unfold NR, anms. cbn [nref]. rewrite E. reflexivity. Qed.
+
+  Lemma nref_fst : forall n g real m ms, checked g = m :: ms ->
+    forall a, Z.max a (fst (NR QFUEL (S (S n)) g real)) = maxl (nchildren (S n) g real (m :: ms)) a.
+  Proof.
+    intros n g real m ms E a. unfold NR, nchildren. cbn [nref]. rewrite E. cbn [fst map hd tl].
+    rewrite maxl_base. rewrite map_map. reflexivity.
+  Qed.
+
+  Lemma nref_snd : forall n g real m, snd (NR QFUEL (S (S n)) g real) = false -> In m (checked g) ->
+    snd (NR QFUEL (S n) (play g m) (real + 1)) = false.
+  Proof.
+    intros n g real m Hs Hin. unfold NR in *. cbn [nref] in Hs.
+    destruct (checked g) as [|m0 ms] eqn:E; [destruct Hin|].
+    cbn [snd] in Hs.
+    apply (existsb_snd_false _ (fun m1 => nref G Move unchecked checked play standpat is_tactical safe hasking SCORE_MIN
+                 MATE_OFFSET_NODE MATE_OFFSET_DEPTH1 MATE_OFFSET_QUIESCENCE QFUEL (S n) (play g m1) (real + 1)) (m0 :: ms)); assumption.
+  Qed.
+
+  Lemma ntree_child : forall n g real m, ntree (S (S n)) g real = true -> In m (checked g) ->
+    fst (NR QFUEL (S n) (play g m) (real + 1)) <= - SCORE_MIN /\ ntree (S n) (play g m) (real + 1) = true.
+  Proof.
+    intros n g real m Ht Hin. cbn [ntree] in Ht. rewrite forallb_forall in Ht.
+    specialize (Ht m Hin). apply andb_true_iff in Ht. destruct Ht as [H1 H2].
+    apply Z.leb_le in H1. split; assumption.
+  Qed.
+
+  Definition NOK (rem : nat) : Prop :=
+    forall g st real alpha beta,
+      OKst st -> SCORE_MIN <= alpha -> beta <= - SCORE_MIN ->
+      snd (NR QFUEL rem g real) = false -> ntree rem g real = true ->
+      exists r st', AN rem g st real alpha beta = (Done r, st') /\ OKst st' /\
+                    SpecR alpha beta (fst (NR QFUEL rem g real)) r.
+
+  (* one move of the PVS loop *)
+  Lemma nstep_spec : forall rem' g real beta m index l, NOK rem' ->
+    OKst (l_st l) -> l_bscore l <= l_alpha l -> SCORE_MIN <= l_alpha l -> beta <= - SCORE_MIN ->
+    (PVS_FULL_WINDOW_LAST_INDEX < index -> l_alpha l < beta) ->
+    snd (NR QFUEL rem' (play g m) (real + 1)) = false ->
+    ntree rem' (play g m) (real + 1) = true ->
+    fst (NR QFUEL rem' (play g m) (real + 1)) <= - SCORE_MIN ->
+    exists l', nstep G play (AN rem') g real beta m index l = Done l' /\ OKst (l_st l') /\
+       l_bscore l' <= l_alpha l' /\
+       Z.max (l_alpha l) (Z.min beta (- fst (NR QFUEL rem' (play g m) (real + 1)))) <= l_alpha l'
+         <= Z.max (l_alpha l) (- fst (NR QFUEL rem' (play g m) (real + 1))).
+  Proof.
+    intros rem' g real beta m index l IH Hst Hbs Hlo Hhi Hidx Hs Ht Hv.
+    unfold nstep. cbv zeta.
+    set (vc := fst (NR QFUEL rem' (play g m) (real + 1))) in *.
+    destruct (Z.leb_spec index PVS_FULL_WINDOW_LAST_INDEX) as [Hi|Hi].
+    - destruct (IH (play g m) (l_st l) (real + 1) (- beta) (- l_alpha l) Hst ltac:(lia) ltac:(lia) Hs Ht)
+        as [s [st1 [E [Hst1 Sp]]]].
+      rewrite E. fold vc in Sp. unfold SpecR in Sp.
+      destruct (Z.ltb_spec (l_bscore l) (- s)); eexists; (split; [reflexivity|]);
+        cbn [l_st l_alpha l_bscore]; (split; [exact Hst1|]); lia.
+    - specialize (Hidx Hi).
+      destruct (IH (play g m) (l_st l) (real + 1) (- l_alpha l - 1) (- l_alpha l) Hst ltac:(lia) ltac:(lia) Hs Ht)
+        as [s [st1 [E [Hst1 Sp]]]].
+      rewrite E. fold vc in Sp. unfold SpecR in Sp.
+      destruct (Z.ltb_spec (l_bscore l) (- s)) as [Hlt|Hge].
+      + destruct (IH (play g m) st1 (real + 1) (- beta) (- - s) Hst1 ltac:(lia) ltac:(lia) Hs Ht)
+          as [s2 [st2 [E2 [Hst2 Sp2]]]].
+        rewrite E2. fold vc in Sp2. unfold SpecR in Sp2.
+        eexists; split; [reflexivity|]. cbn [l_st l_alpha l_bscore]. split; [exact Hst2|]. lia.
+      + eexists; split; [reflexivity|]. cbn [l_st l_alpha l_bscore]. split; [exact Hst1|]. lia.
+  Qed.
+
+  Lemma acut_alpha : forall real remaining l m, l_alpha (acut real remaining l m) = l_alpha l.
+  Proof. reflexivity. Qed.
+  Lemma acut_ok : forall real remaining l m, OKst (l_st l) -> OKst (l_st (acut real remaining l m)).
+  Proof. intros real remaining l m H. exact H. Qed.
+
+  Lemma nloop_spec : forall rem' g real beta remaining, NOK rem' -> beta <= - SCORE_MIN ->
+    forall ms index l,
+    OKst (l_st l) -> l_bscore l <= l_alpha l -> SCORE_MIN <= l_alpha l ->
+    (PVS_FULL_WINDOW_LAST_INDEX < index -> l_alpha l < beta) ->
+    (forall m, In m ms ->
+       snd (NR QFUEL rem' (play g m) (real + 1)) = false /\
+       ntree rem' (play g m) (real + 1) = true /\
+       fst (NR QFUEL rem' (play g m) (real + 1)) <= - SCORE_MIN) ->
+    exists l', nloop G play (AN rem') g real beta remaining ms index l = Done l' /\ OKst (l_st l') /\
+       l_alpha l <= l_alpha l' /\
+       Z.min beta (maxl (nchildren rem' g real ms) (l_alpha l)) <= l_alpha l'
+         <= maxl (nchildren rem' g real ms) (l_alpha l).
+  Proof.
+    intros rem' g real beta remaining IH Hhi. induction ms as [|m rest IHms]; intros index l Hst Hbs Hlo Hidx Hch.
+    - cbn [nloop]. unfold nchildren. cbn [map]. rewrite maxl_nil.
+      eexists; split; [reflexivity|]. split; [exact Hst|]. lia.
+    - cbn [nloop]. unfold nchildren in *. cbn [map]. rewrite maxl_cons.
+      destruct (Hch m (or_introl eq_refl)) as [Hs [Ht Hv]].
+      destruct (nstep_spec rem' g real beta m index l IH Hst Hbs Hlo Hhi Hidx Hs Ht Hv)
+        as [l1 [E1 [Hst1 [Hbs1 Hb1]]]].
+      rewrite E1.
+      set (t := - fst (NR QFUEL rem' (play g m) (real + 1))) in *.
+      set (ts := map (fun m0 => - fst (NR QFUEL rem' (play g m0) (real + 1))) rest) in *.
+      pose proof (maxl_ge ts (Z.max (l_alpha l) t)) as Hge.
+      destruct (Z.leb_spec beta (l_alpha l1)) as [Hb|Hb].
+      + eexists; split; [reflexivity|]. rewrite acut_alpha. split; [apply acut_ok; exact Hst1|]. lia.
+      + assert (Ea : l_alpha l1 = Z.max (l_alpha l) t) by lia.
+        destruct (IHms (index + 1) l1 Hst1 Hbs1 ltac:(lia) ltac:(intros; lia)) as [l' [E' [Hst' Hr]]].
+        { intros; apply Hch; right; assumption. }
+        exists l'. split; [exact E'|]. split; [exact Hst'|]. rewrite Ea in Hr. lia.
+  Qed.
+
+  (* unfolding the node function for a table-less, running state *)
+  Lemma anode_0 : forall g st real alpha beta, OKst st ->
+    AN 0 g st real alpha beta = (lift (AQ QFUEL g alpha beta real), poll st).
+  Proof.
+    intros g st real alpha beta H. destruct (poll_ok st H) as [_ [Hr Ht]].
+    unfold AN. cbn [anode]. cbv zeta. rewrite Hr, Ht, tfind_empty. reflexivity.
+  Qed.
+
+  Lemma anode_1 : forall g st real alpha beta, OKst st ->
+    AN 1 g st real alpha beta = (lift (AD1 g alpha beta real), poll st).
+  Proof.
+    intros g st real alpha beta H. destruct (poll_ok st H) as [_ [Hr Ht]].
+    unfold AN. cbn [anode]. cbv zeta. rewrite Hr, Ht, tfind_empty. reflexivity.
+  Qed.
+
+  Lemma anode_SS : forall n g st real alpha beta, OKst st ->
+    AN (S (S n)) g st real alpha beta =
+    match checked g with
+    | [] => (Done (anms G safe g MATE_OFFSET_NODE real), poll st)
+    | moves =>
+        match nloop G play (AN (S n)) g real beta (Z.of_nat (S (S n)))
+                (sort_moves (fun m => move_score m None (znth (s_killers (poll st)) real None) (s_hist (poll st))) moves)
+                0 (mkL alpha None SCORE_MIN (poll st)) with
+        | Done l =>
+            (Done (l_alpha l),
+             with_tbl (l_st l) (store_node (s_tbl (l_st l)) (ghash g)
+               (mkEntry (l_bscore l) (l_best l) (Z.of_nat (S (S n)))
+                  (if l_bscore l <=? alpha then UpperBound
+                   else if beta <=? l_bscore l then LowerBound else Exact))))
+        | Aborted sa => (Aborted sa, sa)
+        | OutOfFuel => (OutOfFuel, poll st)
+        end
+    end.
+  Proof.
+    intros n g st real alpha beta H. destruct (poll_ok st H) as [_ [Hr Ht]].
+    unfold AN. cbn [anode]. cbv zeta. rewrite Hr, Ht, tfind_empty. cbn [negb probe].
+    destruct (checked g); reflexivity.
+  Qed.
+
+  Theorem anode_spec : forall rem, NOK rem.
+  Proof.
+    induction rem as [rem IHrem] using (well_founded_induction lt_wf).
+    intros g st real alpha beta Hst Hlo Hhi Hs Ht.
+    destruct (poll_ok st Hst) as [Hpst _].
+    destruct rem as [|[|n]].
+    - rewrite (anode_0 _ _ _ _ _ Hst).
+      destruct (aq_spec QFUEL g real alpha beta Hs Ht) as [r [Er Sp]]. fold AQ in Er.
+      rewrite Er. exists r, (poll st). split; [reflexivity|]. split; [exact Hpst|exact Sp].
+    - rewrite (anode_1 _ _ _ _ _ Hst).
+      destruct (ad1_spec g real alpha beta Hs Ht) as [r [Er Sp]]. fold AD1 in Er.
+      rewrite Er. exists r, (poll st). split; [reflexivity|]. split; [exact Hpst|exact Sp].
+    - rewrite (anode_SS _ _ _ _ _ _ Hst).
+      destruct (checked g) as [|m ms] eqn:E.
+      + rewrite (nref_leaf _ _ _ E). cbn [fst].
+        eexists; eexists; split; [reflexivity|]. split; [exact Hpst|apply SpecR_refl].
+      + set (sorted := sort_moves _ (m :: ms)).
+        assert (Hperm : Permutation sorted (m :: ms)) by apply sort_moves_perm.
+        destruct (nloop_spec (S n) g real beta (Z.of_nat (S (S n))) (IHrem (S n) ltac:(lia)) Hhi
+                    sorted 0 (mkL alpha None SCORE_MIN (poll st))) as [l' [E' [Hst' [Hge Hr]]]];
+          cbn [l_st l_alpha l_bscore]; try assumption.
+        * intros Hc. unfold PVS_FULL_WINDOW_LAST_INDEX in Hc. lia.
+        * intros m1 Hin. assert (Hin' : In m1 (checked g)).
+          { rewrite E. eapply Permutation_in; eassumption. }
+          destruct (ntree_child n g real m1 Ht Hin') as [Hv Ht1].
+          split; [eapply nref_snd; eassumption|]. split; assumption.
+        * rewrite E'. eexists; eexists; split; [reflexivity|].
+          split; [apply with_tbl_ok; exact Hst'|].
+          cbn [l_alpha] in Hr, Hge.
+          unfold nchildren in Hr.
+          rewrite (maxl_perm _ _ (Permutation_map _ Hperm)) in Hr.
+          fold (nchildren (S n) g real (m :: ms)) in Hr.
+          rewrite <- (nref_fst n g real m ms E alpha) in Hr.
+          unfold SpecR. lia.
+  Qed.
+  (* ---- the root ---- *)
+  Lemma score_max_min : SCORE_MAX = - SCORE_MIN - 1.
+  Proof. reflexivity. Qed.
+
+  Definition rchildren (rem' : nat) (g : G) (ms : list Move) : list Z :=
+    map (fun m => - fst (NR QFUEL rem' (play g m) 1)) ms.
+
+  Lemma rstep_spec : forall rem' g m index r,
+    OKst (r_st r) -> SCORE_MIN + 1 <= r_bscore r <= SCORE_MAX ->
+    snd (NR QFUEL rem' (play g m) 1) = false ->
+    ntree rem' (play g m) 1 = true ->
+    - fst (NR QFUEL rem' (play g m) 1) <= SCORE_MAX ->
+    exists r', rstep G play (AN rem') g m index r = Done r' /\ OKst (r_st r') /\
+               r_bscore r' = Z.max (r_bscore r) (- fst (NR QFUEL rem' (play g m) 1)).
+  Proof.
+    intros rem' g m index r Hst Hbs Hs Ht Hv.
+    pose proof score_max_min as Hmm.
+    unfold rstep. cbv zeta.
+    set (vc := fst (NR QFUEL rem' (play g m) 1)) in *.
+    destruct (Z.leb_spec index ROOT_FULL_WINDOW_LAST_INDEX) as [Hi|Hi].
+    - destruct (anode_spec rem' (play g m) (r_st r) 1 (SCORE_MIN + 1) (- r_bscore r) Hst ltac:(lia) ltac:(lia) Hs Ht)
+        as [s [st1 [E [Hst1 Sp]]]].
+      rewrite E. fold vc in Sp. unfold SpecR in Sp.
+      destruct (Z.ltb_spec (r_bscore r) (- s)); eexists; (split; [reflexivity|]);
+        cbn [r_st r_bscore]; (split; [exact Hst1|]); lia.
+    - destruct (anode_spec rem' (play g m) (r_st r) 1 (- r_bscore r - 1) (- r_bscore r) Hst ltac:(lia) ltac:(lia) Hs Ht)
+        as [s [st1 [E [Hst1 Sp]]]].
+      rewrite E. fold vc in Sp. unfold SpecR in Sp.
+      destruct (Z.ltb_spec (r_bscore r) (- s)) as [Hlt|Hge].
+      + destruct (anode_spec rem' (play g m) st1 1 (SCORE_MIN + 1) (- - s) Hst1 ltac:(lia) ltac:(lia) Hs Ht)
+          as [s2 [st2 [E2 [Hst2 Sp2]]]].
+        rewrite E2. fold vc in Sp2. unfold SpecR in Sp2.
+        eexists; split; [reflexivity|]. cbn [r_st r_bscore]. split; [exact Hst2|]. lia.
+      + eexists; split; [reflexivity|]. cbn [r_st r_bscore]. split; [exact Hst1|]. lia.
+  Qed.
+
+  Lemma rloop_spec : forall rem' g ms index r,
+    OKst (r_st r) -> SCORE_MIN + 1 <= r_bscore r <= SCORE_MAX ->
+    (forall m, In m ms ->
+       snd (NR QFUEL rem' (play g m) 1) = false /\
+       ntree rem' (play g m) 1 = true /\
+       - fst (NR QFUEL rem' (play g m) 1) <= SCORE_MAX) ->
+    exists r', rloop G play (AN rem') g ms index r = Done r' /\ OKst (r_st r') /\
+               r_bscore r' = maxl (rchildren rem' g ms) (r_bscore r).
+  Proof.
+    intros rem' g. induction ms as [|m rest IH]; intros index r Hst Hbs Hch.
+    - cbn [rloop]. eexists; split; [reflexivity|]. split; [exact Hst|reflexivity].
+    - cbn [rloop]. unfold rchildren in *. cbn [map]. rewrite maxl_cons.
+      destruct (Hch m (or_introl eq_refl)) as [Hs [Ht Hv]].
+      destruct (rstep_spec rem' g m index r Hst Hbs Hs Ht Hv) as [r1 [E1 [Hst1 Hb1]]].
+      rewrite E1.
+      destruct (IH (index + 1) r1 Hst1 ltac:(lia)) as [r' [E' [Hst' Hr]]].
+      { intros; apply Hch; right; assumption. }
+      exists r'. split; [exact E'|]. split; [exact Hst'|]. rewrite Hr, Hb1. reflexivity.
+  Qed.
+
+  (* the tree condition at the root *)
+  Definition roottree (depth : nat) (g : G) (moves : list Move) : bool :=
+    forallb (fun m => ntree (pred depth) (play g m) 1) moves.
+
+  Definition aroot_body (g : G) (st : sstate) (depth : nat) : outcome (option Move * Z * bool) * sstate :=
+    let moves := checked g in
+    let st := with_killers st (repeat None (Z.to_nat KILLER_SLOTS)) in
+    let moves := arep_filter G gmoves g moves in
+    let e := tfind (s_tbl st) (ghash g) in
+    match root_entry G ghash st g depth with
+    | Some en => (Done (e_pv en, e_score en, false), st)
+    | None =>
+        let pv_move := match e with Some en => e_pv en | None => None end in
+        let sorted := sort_moves (fun m => move_score m pv_move None (s_hist st)) moves in
+        let rem' := pred depth in
+        let res := rloop G play (AN rem') g sorted 0 (mkR None (SCORE_MIN + 1) st) in
+        match res with
+        | Done r =>
+            let ne := mkEntry (r_bscore r) (r_best r) (Z.of_nat depth) Exact in
+            let st' := r_st r in
+            (Done (r_best r, r_bscore r, false), with_tbl st' (store_root (s_tbl st') (ghash g) ne))
+        | Aborted sa => (Aborted sa, sa)
+        | OutOfFuel => (OutOfFuel, st)
+        end
+    end.
+
+  Lemma aroot_unfold : forall g st depth, (forall m, checked g <> [m]) ->
+    AR g st depth = aroot_body g st depth.
+  Proof.
+    intros g st depth H. unfold AR, aroot, aroot_body. cbv zeta.
+    destruct (checked g) as [|m [|m2 ms]] eqn:E; try reflexivity.
+    exfalso. apply (H m). reflexivity.
+  Qed.
+
+  Theorem aroot_exact : forall g st depth,
+    let moves := arep_filter G gmoves g (checked g) in
+    OKst st ->
+    (forall m, checked g <> [m]) ->
+    root_entry G ghash st g depth = None ->
+    snd (RR QFUEL depth g moves) = false ->
+    roottree depth g moves = true ->
+    fst (RR QFUEL depth g moves) <= SCORE_MAX ->
+    exists bm st', AR g st depth = (Done (bm, fst (RR QFUEL depth g moves), false), st') /\ OKst st'.
+  Proof.
+    intros g st depth moves Hst Hne Hre Hs Ht Hv.
+    rewrite (aroot_unfold g st depth Hne). unfold aroot_body. cbv zeta.
+    set (st0 := with_killers st (repeat None (Z.to_nat KILLER_SLOTS))).
+    change (root_entry G ghash st0 g depth) with (root_entry G ghash st g depth). rewrite Hre.
+    fold moves.
+    set (sorted := sort_moves _ moves).
+    assert (Hperm : Permutation sorted moves) by apply sort_moves_perm.
+    assert (Hfst : forall l, Permutation l moves ->
+               fst (RR QFUEL depth g moves) = maxl (rchildren (pred depth) g l) (SCORE_MIN + 1)).
+    { intros l Hl. unfold RR, rootref, rchildren. cbn [fst]. rewrite map_map.
+      symmetry. apply maxl_perm. apply Permutation_map. exact Hl. }
+    destruct (rloop_spec (pred depth) g sorted 0 (mkR None (SCORE_MIN + 1) st0)) as [r' [E' [Hst' Hr]]];
+      cbn [r_st r_bscore].
+    - apply with_killers_ok. exact Hst.
+    - unfold SCORE_MIN, SCORE_MAX. lia.
+    - intros m Hin. assert (Hin' : In m moves) by (eapply Permutation_in; eassumption).
+      split; [|split].
+      + unfold RR, rootref in Hs. cbn [snd] in Hs.
+        apply (existsb_snd_false _ (fun m1 => nref G Move unchecked checked play standpat is_tactical safe hasking SCORE_MIN
+                 MATE_OFFSET_NODE MATE_OFFSET_DEPTH1 MATE_OFFSET_QUIESCENCE QFUEL (pred depth) (play g m1) 1) moves); assumption.
+      + unfold roottree in Ht. rewrite forallb_forall in Ht. apply Ht. exact Hin'.
+      + apply in_split in Hin'. destruct Hin' as [l1 [l2 El]].
+        assert (Hp2 : Permutation (m :: l1 ++ l2) moves) by (rewrite El; apply Permutation_middle).
+        rewrite (Hfst _ Hp2) in Hv.
+        unfold rchildren in Hv. cbn [map] in Hv. rewrite maxl_cons in Hv.
+        pose proof (maxl_ge (map (fun m0 => - fst (NR QFUEL (pred depth) (play g m0) 1)) (l1 ++ l2))
+                      (Z.max (SCORE_MIN + 1) (- fst (NR QFUEL (pred depth) (play g m) 1)))).
+        lia.
+    - rewrite E'. eexists; eexists; split.
+      + cbn [r_bscore] in Hr. rewrite (Hfst sorted Hperm). rewrite <- Hr. reflexivity.
+      + apply with_tbl_ok. exact Hst'.
+  Qed.
 End ABProofs.
+
+(* ------------------------------------------------------------------------------------------ *)
+(* 4. The chess instance (Model/Search.v against Model/RefSearch.v)                              *)
+(* ------------------------------------------------------------------------------------------ *)
+
+Lemma side_safe_has_king : forall g, side_safe g = true -> side_has_king g = true.
+Proof.
+  intros g H. unfold side_safe in H. cbv zeta in H. apply andb_true_iff in H.
+  unfold side_has_king. apply H.
+Qed.
+
+(* the tree conditions, for chess *)
+Definition chess_qsep := qsep game pseudo_moves push standpat.
+Definition chess_d1sep := d1sep game pseudo_moves push standpat.
+Definition chess_ntree := ntree game pseudo_moves checked_moves push standpat side_safe side_has_king.
+Definition chess_roottree := roottree game pseudo_moves checked_moves push standpat side_safe side_has_king.
+Definition chess_d1ref := d1ref game Move pseudo_moves push standpat is_tactical side_safe side_has_king
+                                SCORE_MIN MATE_OFFSET_DEPTH1 MATE_OFFSET_QUIESCENCE.
+(* no table hit at the root *)
+Definition chess_root_entry := root_entry game g_hash.
+
+Theorem quiescence_bound_consistent : forall fuel g real alpha beta,
+  snd (chess_qref fuel g real) = false ->
+  chess_qsep fuel g real = true ->
+  exists r, quiescence fuel g alpha beta real = Some r /\
+            SpecR alpha beta (fst (chess_qref fuel g real)) r.
+Proof.
+  intros fuel g real alpha beta Hs Hq. rewrite quiescence_is_aq.
+  exact (aq_spec game pseudo_moves push standpat side_safe side_has_king side_safe_has_king
+           fuel g real alpha beta Hs Hq).
+Qed.
+Print Assumptions quiescence_bound_consistent.
+
+Theorem depth1_bound_consistent : forall g real alpha beta,
+  snd (chess_d1ref QFUEL g real) = false ->
+  chess_d1sep g real = true ->
+  exists r, depth1 g alpha beta real = Some r /\
+            SpecR alpha beta (fst (chess_d1ref QFUEL g real)) r.
+Proof.
+  intros g real alpha beta Hs Hq. rewrite depth1_is_ad1.
+  exact (ad1_spec game pseudo_moves push standpat side_safe side_has_king side_safe_has_king
+           g real alpha beta Hs Hq).
+Qed.
+Print Assumptions depth1_bound_consistent.
+
+(* the full PVS node: null-window probes and re-searches included, for every search state that
+   is table-less and never stopped (so: for every killer / history content, i.e. every ordering) *)
+Theorem node_bound_consistent : forall rem g st real alpha beta,
+  OKst st -> SCORE_MIN <= alpha -> beta <= - SCORE_MIN ->
+  snd (chess_nref QFUEL rem g real) = false ->
+  chess_ntree rem g real = true ->
+  exists r st', node rem g st real alpha beta = (Done r, st') /\ OKst st' /\
+                SpecR alpha beta (fst (chess_nref QFUEL rem g real)) r.
+Proof.
+  intros rem g st real alpha beta Hst Hlo Hhi Hs Ht. rewrite node_is_anode.
+  exact (anode_spec game pseudo_moves checked_moves push standpat side_safe side_has_king g_hash
+           side_safe_has_king rem g st real alpha beta Hst Hlo Hhi Hs Ht).
+Qed.
+Print Assumptions node_bound_consistent.
+
+Corollary node_exact_in_window : forall rem g st real alpha beta,
+  OKst st -> SCORE_MIN <= alpha -> beta <= - SCORE_MIN ->
+  snd (chess_nref QFUEL rem g real) = false ->
+  chess_ntree rem g real = true ->
+  alpha < fst (chess_nref QFUEL rem g real) < beta ->
+  exists st', node rem g st real alpha beta = (Done (fst (chess_nref QFUEL rem g real)), st') /\ OKst st'.
+Proof.
+  intros rem g st real alpha beta Hst Hlo Hhi Hs Ht Hw.
+  destruct (node_bound_consistent rem g st real alpha beta Hst Hlo Hhi Hs Ht) as [r [st' [E [Hst' Sp]]]].
+  exists st'. rewrite <- (SpecR_exact _ _ _ _ Sp Hw). split; assumption.
+Qed.
+
+Theorem root_exact : forall g st depth,
+  OKst st ->
+  (forall m, checked_moves g <> [m]) ->
+  chess_root_entry st g depth = None ->
+  snd (chess_rootref QFUEL depth g (root_moves g)) = false ->
+  chess_roottree depth g (root_moves g) = true ->
+  fst (chess_rootref QFUEL depth g (root_moves g)) <= SCORE_MAX ->
+  exists bm st', root g st depth = (Done (bm, fst (chess_rootref QFUEL depth g (root_moves g)), false), st')
+                 /\ OKst st'.
+Proof.
+  intros g st depth Hst Hne Hre Hs Ht Hv. rewrite root_is_aroot.
+  exact (aroot_exact game pseudo_moves checked_moves push standpat side_safe side_has_king g_hash g_moves
+           side_safe_has_king g st depth Hst Hne Hre Hs Ht Hv).
+Qed.
+Print Assumptions root_exact.
+
+(* the state the driver starts from satisfies the state condition, and an empty table never hits *)
+Lemma fresh_state_ok : forall t, OKst (fresh_state t (-1) true).
+Proof. intros t. unfold OKst, fresh_state. cbn. repeat split; lia. Qed.
+
+Lemma root_entry_empty : forall g depth, chess_root_entry (fresh_state tempty (-1) true) g depth = None.
+Proof.
+  intros g depth. unfold chess_root_entry, root_entry, fresh_state. cbn [s_tbl].
+  rewrite tfind_empty. reflexivity.
+Qed.
+
+Corollary root_exact_fresh : forall g depth,
+  (forall m, checked_moves g <> [m]) ->
+  snd (chess_rootref QFUEL depth g (root_moves g)) = false ->
+  chess_roottree depth g (root_moves g) = true ->
+  fst (chess_rootref QFUEL depth g (root_moves g)) <= SCORE_MAX ->
+  exists bm st', root g (fresh_state tempty (-1) true) depth
+                 = (Done (bm, fst (chess_rootref QFUEL depth g (root_moves g)), false), st').
+Proof.
+  intros g depth Hne Hs Ht Hv.
+  destruct (root_exact g (fresh_state tempty (-1) true) depth (fresh_state_ok _) Hne
+              (root_entry_empty g depth) Hs Ht Hv) as [bm [st' [E _]]].
+  exists bm, st'. exact E.
+Qed.
+Print Assumptions root_exact_fresh.
